@@ -42,10 +42,11 @@ const prelude = `(set-logic ALL)
 (declare-fun idx (Slc Int) Int)
 (assert (forall ((s Slc) (i Int)) (! (= (idx s i) (+ (soff s) i)) :pattern ((idx s i)))))
 (declare-fun subtag (Int) Int)
+(declare-fun rootof (Int) Int)
 (declare-fun elemref (Int Int) Int)
 (declare-fun er_arr (Int) Int)
 (declare-fun er_idx (Int) Int)
-(assert (forall ((a Int) (i Int)) (! (and (= (er_arr (elemref a i)) a) (= (er_idx (elemref a i)) i) (not (= (elemref a i) 0)) (= (subtag (elemref a i)) (- 1))) :pattern ((elemref a i)))))
+(assert (forall ((a Int) (i Int)) (! (and (= (er_arr (elemref a i)) a) (= (er_idx (elemref a i)) i) (not (= (elemref a i) 0)) (= (subtag (elemref a i)) (- 1)) (= (rootof (elemref a i)) (rootof a))) :pattern ((elemref a i)))))
 (declare-fun b2s ((Array Int Int) Int Int) Str)
 (assert (forall ((m (Array Int Int)) (o Int) (n Int)) (! (=> (>= n 0) (= (len (b2s m o n)) n)) :pattern ((b2s m o n)))))
 (assert (forall ((m (Array Int Int)) (o Int) (n Int) (i Int)) (! (=> (and (<= 0 i) (< i n)) (= (at (b2s m o n) i) (select m (+ o i)))) :pattern ((at (b2s m o n) i)))))
@@ -80,7 +81,17 @@ var solvers = []solverSpec{
 // answer flipped when any unrelated prelude axiom (e.g. the boxS axiom, which has no ground
 // instance in the query) was removed — an unstable and therefore untrustworthy `unsat`.
 
+// runSolver retries when the solver process produced no verdict at all (killed, out of memory under load).
 func runSolver(sp solverSpec, file string, secs int) Result {
+	r := runSolverOnce(sp, file, secs)
+	for i := 0; i < 2 && r.Status == "error" && !strings.Contains(r.Output, "(error"); i++ {
+		time.Sleep(time.Duration(200*(i+1)) * time.Millisecond)
+		r = runSolverOnce(sp, file, secs)
+	}
+	return r
+}
+
+func runSolverOnce(sp solverSpec, file string, secs int) Result {
 	ctx, cancel := context.WithTimeout(context.Background(), time.Duration(secs+2)*time.Second)
 	defer cancel()
 	argv := sp.argv(file, secs)
